@@ -57,6 +57,41 @@ CHECKS.update({
          "DESIGN.md section 5, C17"),
 })
 
+CHECKS.update({
+ "C08": ("stateful property-based testing: proptest-generated histories (operations, passes, gradient reads/clears, optimizer updates, clones, re-binding, drops) with an immutability invariant checked after every step",
+         "Bounded generated-input search over histories of up to 25 (quick) / 120 (thorough) steps; after every step the dimensions and value bits of every live handle are compared with the snapshot taken at its creation.",
+         "Trusted: snapshots of corgi's own earlier observations; the reference model only types the histories. The source audit named in the property is outside this technique.",
+         "DESIGN.md section 5, C08"),
+ "C09": ("model-based stateful testing: per-handle flag model (copied on clone) vs corgi after every step of proptest-generated flag histories + exhaustive iff-rule enumeration over every operation and tracked assignment",
+         "Bounded generated-input search: every built-in operation x every tracked/untracked operand assignment (iff rule, operands released when untracked); histories with tracked/untracked/start/stop on leaves, results and clones with repeated passes: flags equal the model after every step, no gradient where none may be stored.",
+         "Trusted: the flag/reachability model in harness/refmodel/src/model.rs; start_tracking()'s return value as flag probe; Vec::from(array) as ownership probe.",
+         "DESIGN.md section 5, C09"),
+ "C10": ("metamorphic stateful testing: each pass of a proptest-generated multi-pass history is re-run alone on a fresh instance; accumulated gradients must equal the sum of single-pass gradients since the last clear",
+         "Bounded generated-input search over histories with up to ~10 (quick) / ~35 (thorough) passes on overlapping graphs, clears, drops, clones, flag changes, plus residue probes at the end; checked after every step.",
+         "Trusted: corgi's own single-pass results on fresh instances (the statement's own oracle); exact histories compared bitwise.",
+         "DESIGN.md section 5, C10"),
+ "C11": ("exhaustive enumeration of all small DAGs of logging custom operations + proptest programs mixing custom and built-in operations + escalating self-product chains; oracle = invocation log vs reference adjoints",
+         "Bounded generated-input search: all DAGs with 1-2 leaves and <=4 (quick) / <=5 (thorough) custom nodes (both seed kinds), generated mixed programs, chains up to depth 64/256: exactly-once invocation, consumer-before-operand order, complete adjoint.",
+         "Trusted: harness closures passed to Array::op (they log and compute deltas with plain slices); reference adjoints from dual numbers. Built-in derivative invocations are not observable (DESIGN.md section 11).",
+         "DESIGN.md section 5, C11"),
+ "C14": ("model-based testing of training histories: spy Layer wrappers snapshot parameters and gradients at every Model::update; per-iteration oracle = dual-number loss/gradient from the observed parameters",
+         "Bounded generated-input search over layer stacks (dense, conv, conv-flatten-dense), activations, costs, learning rates, 1-5 (quick) / 1-20 (thorough) iterations with varying batch sizes, cancelling-gradient targets and inference-only forwards.",
+         "Trusted: reference layers/costs + dual numbers in harness/refmodel; deterministic initializer; runs that leave the well-conditioned domain are truncated (counted).",
+         "DESIGN.md section 5, C14"),
+ "C15": ("enumeration + proptest sampling of layer stacks, inputs and cost arguments against reference formulas (differential oracle)",
+         "Bounded generated-input search: all dense sizes 1..4 x activations x input forms, costs on all shapes of rank 1..4 / sizes 1..3, sampled stacks (dense, conv incl. rectangular/strided, conv-flatten-dense) with batches; layer outputs, Model::forward composition, Model::backward return value, parameter shapes.",
+         "Trusted: reference formulas in harness/refmodel/src/ops.rs; parameters read back through Layer::parameters().",
+         "DESIGN.md section 5, C15"),
+ "C18": ("model-based stateful testing with ownership probes (Vec::from succeeds iff sole owner) inserted where the liveness model says all derived results are dropped; plus training loops probing retained batches",
+         "Bounded generated-input search over histories with passes, stored/fetched gradients, updates, clones, re-binding, drops and probes, a final release phase probing every remaining array, and 144 training-loop configurations.",
+         "Trusted: the liveness/buffer-sharing model in harness/refmodel/src/model.rs (clones and reshape views share a buffer; recorded operands keep arrays alive; fetched gradient buffers are not predicted).",
+         "DESIGN.md section 5, C18"),
+ "C19": ("the C01-C07 generators, enumerators and oracles re-run against corgi built with the f32 feature (second harness build); exact-mode data must match exactly, the rest within an f32-scaled tolerance",
+         "Bounded generated-input search: ~660k cases (quick) over the case spaces of C01-C07 in the single-precision build, compared with the precision-independent f64 reference (shapes, tracking, acceptance exactly; values to rtol 4e-4 scaled by term magnitudes).",
+         "Trusted: as C01-C07; f32 tolerance rtol 4e-4 / atol 1e-5.",
+         "DESIGN.md section 5, C19"),
+})
+
 NOT_YET = {}
 
 def main():
